@@ -17,6 +17,8 @@ var clientEntryPoints = []string{
 
 func init() {
 	register("C09", func(c *core.Ctx, tier string) {
+		serverEffects(c, "C09.13")
+		valueAfterErrCheck(c, "C09.3e", "engine", "transports", "types", "utils", "webtransport")
 		frameTransportEffects(c, "C09.12")
 		errPolarity(c, "C09.3d", "engine", "transports", "types", "utils", "webtransport")
 		pollingEffects(c, "C09.11")
@@ -902,6 +904,63 @@ func c09NilContradiction(c *core.Ctx) {
 				if assigned(nd, p) {
 					killed = true
 				}
+			}
+		}
+	}
+	// (c) the value of a failed comma-ok type assertion / map lookup of interface or pointer type is nil: no method call or dereference on the !ok edge
+	for _, u := range c.P.Units {
+		if u.Pkg == nil || u.Pkg.Types == nil || !pkgs[u.Pkg.Types.Name()] {
+			continue
+		}
+		info := u.Info()
+		g := u.Graph()
+		for _, f := range g.Facts() {
+			if f.Br.IsCase || f.Val {
+				continue // only edges on which ok is false
+			}
+			okId, isI := ast.Unparen(f.Br.Cond).(*ast.Ident)
+			if !isI {
+				continue
+			}
+			d, ok := u.SingleDef(okId)
+			te, isT := d.(*core.TupleElem)
+			if !ok || !isT || te.Index != 1 {
+				continue
+			}
+			if _, isTA := ast.Unparen(te.X).(*ast.TypeAssertExpr); !isTA {
+				continue
+			}
+			// the value variable defined by the same statement
+			var valObj types.Object
+			ast.Inspect(u.Body, func(x ast.Node) bool {
+				if as, isA := x.(*ast.AssignStmt); isA && len(as.Lhs) == 2 && len(as.Rhs) == 1 && as.Rhs[0] == te.X {
+					if id, isId := as.Lhs[0].(*ast.Ident); isId && id.Name != "_" {
+						valObj = core.ObjOf(info, id)
+					}
+				}
+				return true
+			})
+			if valObj == nil {
+				continue
+			}
+			switch valObj.Type().Underlying().(type) {
+			case *types.Pointer, *types.Interface:
+			default:
+				continue
+			}
+			nTests++
+			for _, nd := range g.DominatedNodes(f.Br.B, f.Edge) {
+				ast.Inspect(nd, func(x ast.Node) bool {
+					if _, isLit := x.(*ast.FuncLit); isLit {
+						return false
+					}
+					if se, isS := x.(*ast.SelectorExpr); isS {
+						if id, isId := ast.Unparen(se.X).(*ast.Ident); isId && info.Uses[id] == valObj {
+							c.Violate(R, keyf("%s/use(%s)-on-the-failed-assertion-edge", u.Key, id.Name), se.Pos(), keyf("%s is the nil result of a failed comma-ok assertion on this edge", id.Name))
+						}
+					}
+					return true
+				})
 			}
 		}
 	}
